@@ -34,6 +34,7 @@ type MassDBV1 struct {
 	pubKeyHash pocutil.Hash
 	plotting   int32 // atomic
 	stopPlotCh chan struct{}
+	stopLock   sync.Mutex
 	wg         sync.WaitGroup
 }
 
@@ -85,7 +86,15 @@ func (mdb *MassDBV1) StopPlot() chan error {
 	}
 
 	go func() {
-		close(mdb.stopPlotCh)
+		// StopPlot can be called by a Stop request and by the keeper's
+		// shutdown monitor at the same time: close the channel only once
+		mdb.stopLock.Lock()
+		select {
+		case <-mdb.stopPlotCh:
+		default:
+			close(mdb.stopPlotCh)
+		}
+		mdb.stopLock.Unlock()
 		mdb.wg.Wait()
 		result <- nil
 	}()
